@@ -31,6 +31,20 @@ func plans() []nrun.Plan {
 		p.Allow = nil
 		out = append(out, p)
 	}
+	// FREE pass: every scenario (for the families: every cost-0 combination)
+	// once more, free-running: no controller decisions and no synctest.Wait
+	// between events, so that the detector also sees races whose two accesses
+	// are rounds apart (a burst round boundary is a happens-before edge).
+	n := len(out)
+	for _, p := range out[:n] {
+		sc := *p.Scenario
+		sc.Free = true
+		sc.Name += "/free"
+		q := p
+		q.Scenario = &sc
+		q.QuickBudget, q.ThoroughBudget = 0, 0
+		out = append(out, q)
+	}
 	return out
 }
 
@@ -38,7 +52,7 @@ func TestC41(t *testing.T) {
 	nrun.Main(t, &nrun.Check{
 		ID: "C41", TestName: "TestC41", Plans: plans(),
 		QuickTime: 150 * time.Second, ThorTime: 18 * time.Minute,
-		Rule: "engine N in burst mode under the Go race detector: for each end-to-end scenario, at every quiescent point ALL enabled application calls and frame deliveries are released concurrently (k=0), and every single 'hold one event back for a round' deviation (k=1; k=2 thorough); a data race report from the detector (halt_on_error) is the violation; distinct = distinct terminal outcomes",
+		Rule: "engine N in burst mode under the Go race detector: for each end-to-end scenario, at every quiescent point ALL enabled application calls and frame deliveries are released concurrently (k=0), and every single 'hold one event back for a round' deviation (k=1; k=2 thorough); plus a FREE pass of every scenario and of every cost-0 combination of the generated families (API-direct/API-group call-script offsets, PG, BG): no controller decisions and no synctest.Wait between events, calls paced 400 virtual ms apart, so that races whose accesses are rounds apart are visible too; a data race report from the detector (halt_on_error) is the violation; distinct = distinct terminal outcomes",
 		Assume: []string{"the race detector's happens-before analysis generalises over timings with the same synchronisation order", "within a burst the goroutine schedule is the Go runtime's", "synctests build of xsync (channel mutexes give the detector the same edges)"},
 		// In burst mode several application calls and deliveries are released at
 		// once, so the scenario oracles written for one-event-at-a-time stepping
